@@ -3,10 +3,13 @@ import datetime
 import re
 from vlib import *
 
-EXTRA_MODULES = ["C15text"]
+EXTRA_MODULES = ["C15text", "C15reject"]
 THEOREMS = [
     "C15_text_roundtrip", "C15_text_roundtrip_cfg", "C15_text_valid_literal", "C15_text_spec_accepts", "C15_text_grammar",
     "C15_text_nano_zero_digits", "C15_text_ex_wf4", "C15_text_ex_wf5", "C15_text_ex_strings",
+    "C15_text_accepts_only_literals", "C15_text_accepts_only_valid_partial", "C15_text_accepts_only_valid_strict",
+    "C15_text_accepts_only_spellings_refuted", "C15_text_sign_defect", "C15_text_rejects_invalid", "C15_text_rejects_underscore",
+    "C15_text_rejects_bad_char", "C15_text_ex_february", "C15_text_ex_offset_day", "C15_text_ex_case_and_sign", "C15_text_ex_accepted",
     "C15_days_civil_inverse", "C15_civil_days_inverse", "C15_civil_valid", "C15_date_fields", "C15_wf_year",
     "C15_binary_roundtrip",
     "C15_binary_reject_patched", "C15_binary_reject_refuted", "C15_binary_minute60_witness",
@@ -439,6 +442,12 @@ def oracle(line, go):
                 return None
             if RE_SHAPE.match(text) and go != "err":
                 return "'%s' names an impossible date, time or offset but is accepted" % text
+            if go != "err":
+                # every accepted string must be a timestamp literal (C15_text_accepts_only_literals); the one lenient
+                # normalisation of ParseTimestamp is a final lower-case t on the three date-only forms
+                norm = text[:-1] + "T" if text.endswith("t") and len(text) in (5, 8, 11) else text
+                if spec_parse(norm) is None:
+                    return "'%s' is not an Ion timestamp literal but ParseTimestamp accepts it" % text
             return None
         if cmd == "ts_read":
             bs = unhx(t[1])
@@ -649,7 +658,9 @@ def text_catalogue(ctx):
     out.update(bad)
     # truncations / case / separators (not judged unless they name a date; the model must agree)
     for b in bases + ["2000-01-01T12:30:00.123", "2000-01-01T12:30:00.", "2000-01-01T12:30:00", "2000-01-01T12:30",
-                      "2000-01-01t12:30Z", "2000-01-01T12:30z", "+123T", "2000-+1T", "2000-01-+1", "2000-01-01T1:30:00Z",
+                      "2000-01-01t12:30Z", "2000-01-01T12:30z", "+123T", "2000-+1T", "2000-01-+1", "+200T", "-200T", "2000--1T", "2000-01--1",
+                      "+999-01-01", "2000-+1-01T12:30Z", "2000-01-+1T12:30:00Z", "2000-01-01T+1:30Z", "2000-01-01T12:+3Z", "2000-01-01T12:30:+5Z",
+                      "2000-01-01T12:30:00.+5Z", "2000t", "2000-01t", "2000-01-01t", " 2000T", "2000T ", "2000-1-01T", "2000-01-1T", "200T", "2000-01-01T1:30:00Z",
                       "2000-01-01T12:30:4+.1234567890Z", "2000-01-01T12:30:4-.1234567890Z", "2000-01-01T12:30:00,5Z",
                       "2000-01-01T12:30:00.5z", "2000-01-01T12:30:00.5+1:00", "2000-01-01T12:30:00.5+01:0", "2000-01-01T12:30:00.5+01:000",
                       "2000-01-01T12:30+-1:30", "2000-01-01T12:30+01:-3", "20000-01-01T", "2000-01-01T12:30:00.5Zjunk", "2000-01-01Tjunk"]:
